@@ -82,14 +82,16 @@ Inductive call :=
 | CMatch (qty : N) (taker : oid)
 | CUpdate (u : update)
 | CReadVis | CReadHid | CReadCnt | CList
-| CNext.                       (* UuidGenerator::next on the shared generator *)
+| CNext                        (* UuidGenerator::next on the shared generator *)
+| CSnapshot.                   (* PriceLevel::snapshot: three counter loads, then the iteration *)
 
 Inductive ret :=
 | RetAdd (o : order)
 | RetMatch (r : result)
 | RetUpd (u : uout)
 | RetNum (n : N)
-| RetList (l : list order).
+| RetList (l : list order)
+| RetSnap (v h c : N) (l : list order).   (* snapshot: visible, hidden, order_count as loaded; the listing *)
 
 (* locals of match_order *)
 Record mloc := mkMloc { ml_taker : oid; ml_rem : N; ml_res : result; ml_aside : list order }.
@@ -120,7 +122,10 @@ Inductive pc :=
 | U1 (k : oid) (nq : N) | U2 (k : oid) (nq : N)
 | U3 (old new : order) | U4 (old new : order) | U5 (new : order) | U6 (new : order)
 (* reads, generator *)
-| RdV | RdH | RdC | RdL | G1.
+| RdV | RdH | RdC | RdL | G1
+(* snapshot(): visible.load; hidden.load; order_count.load; orders.iter — four steps, another
+   thread may run between any two of them *)
+| Sn1 | Sn2 (v : N) | Sn3 (v h : N) | Sn4 (v h c : N).
 
 Section WithMf.
 Variable mf : order -> N -> mres.
@@ -173,6 +178,7 @@ Definition start (price : N) (c : call) : pc :=
   | CUpdate (Replace k p q _) => if p =? price then U1 k q else C1 k
   | CReadVis => RdV | CReadHid => RdH | CReadCnt => RdC | CList => RdL
   | CNext => G1
+  | CSnapshot => Sn1
   end.
 
 Definition fetch_add (s : shared) (x : obj) (n : N) : shared * ev :=
@@ -274,6 +280,12 @@ Definition tstep (p : pc) (s : shared) : option (pc * shared * ev) :=
   | RdC => Some (Done (RetNum (sh_ccnt s)), s, ELoad OCnt (sh_ccnt s))
   | RdL => Some (Done (RetList (sort_ts (sh_map s))), s, EIter (N.of_nat (length (sh_map s))))
   | G1 => let '(s', e) := fetch_add s OGen 1 in Some (Done (RetNum (sh_gen s)), s', e)
+  (* ---- snapshot: reads only, the shared state is returned as it is ---- *)
+  | Sn1 => Some (Sn2 (sh_cvis s), s, ELoad OVis (sh_cvis s))
+  | Sn2 v => Some (Sn3 v (sh_chid s), s, ELoad OHid (sh_chid s))
+  | Sn3 v h => Some (Sn4 v h (sh_ccnt s), s, ELoad OCnt (sh_ccnt s))
+  | Sn4 v h c =>
+      Some (Done (RetSnap v h c (sort_ts (sh_map s))), s, EIter (N.of_nat (length (sh_map s))))
   end.
 
 (* ---- threads, configurations, schedules ---- *)
